@@ -1,9 +1,10 @@
 """C06 - a genome's signature depends only on its biological content (gambit-side clauses).
 
-F1 per-record isolation: one generator element per record, no concatenation between records and the search; one shared accumulator
+F1 per-record isolation: one generator element per record (or one accumulate_kmers call per record in a loop written out in
+   calc_file_signature itself), no concatenation between records and the search; one shared accumulator
 F2 strand symmetry = C01-K1..K4 (mirrored windows/slices) + C07-T3/T5/T6 (rc encoder = encoder o complement), re-evaluated
 F3 case = C01-K6 + the 0xDF mask in both encoders (C07-T1/T3), re-evaluated
-F4 content-based compression: every CLI SequenceFile is 'auto'; auto -> _open_auto; gzip magic; seek(0); universal newlines
+F4 content-based compression: every CLI SequenceFile is 'auto' (a site inside a newly extracted helper counts once per caller); auto -> _open_auto; gzip magic; seek(0); universal newlines
 F5 parse(): text mode, handed to SeqIO.parse with the file's format; stream closed on error and on exhaustion
 
 F1, F4 and F5 are decided by value flow over the paths of the anchor functions (`sym_paths` below): which value reaches which call
@@ -18,6 +19,7 @@ import re
 
 from ..astutil import (always_exits, assigned_targets, u, atoms, path_atoms, stmts_in, calls_in, callee, callee_attr, get_arg, get_kw, is_none, is_const, names_in)
 from ..report import Undecided
+from ..inline import known_symbols
 from . import c01, c07
 
 SEQ_NAMES = {'seq', 'seqs', 'record', 'records', 'haystack', 'kmer'}
@@ -223,8 +225,10 @@ def _unknown(name):
     return ast.Name(id=f'?{name}', ctx=ast.Load())
 
 
-def sym_paths(fn):
-    """All acyclic paths of a function (ast.FunctionDef), each with its conditions, events and end."""
+def sym_paths(fn, block=None, env=None):
+    """All acyclic paths of a function (ast.FunctionDef), each with its conditions, events and end.
+    With `block` (a statement list of fn, e.g. a loop body) and `env` (the environment on entry) the paths of one pass through
+    that block are enumerated instead; such a path may also end in ('continue' | 'break', stmt, None)."""
     a = fn.args
     params = [x.arg for x in a.posonlyargs + a.args + a.kwonlyargs] + ([a.vararg.arg] if a.vararg else []) + ([a.kwarg.arg] if a.kwarg else [])
     done = []
@@ -314,6 +318,9 @@ def sym_paths(fn):
         if isinstance(s, ast.Raise):
             finish(p, 'raise', s, None)
             return []
+        if isinstance(s, (ast.Break, ast.Continue)) and block is not None:
+            finish(p, 'break' if isinstance(s, ast.Break) else 'continue', s, None)
+            return []
         if isinstance(s, ast.Assert):
             if isinstance(s.test, ast.Constant) and not s.test.value:
                 finish(p, 'raise', s, None)
@@ -368,13 +375,96 @@ def sym_paths(fn):
                 p.env[n.id] = _unknown(n.id)
         return [p]
 
-    for p in run(fn.body, [Path(params)]):
+    start = Path(params)
+    if env is not None:
+        start.env = dict(env)
+        for v in env.values():          # symbols of the enclosing path stay taken
+            for n in ast.walk(v):
+                if isinstance(n, ast.Name):
+                    base = n.id.split('~')[0]
+                    start.count[base] = max(start.count.get(base, 0), int(n.id.split('~')[1]) + 1 if '~' in n.id else 1)
+    for p in run(fn.body if block is None else block, [start]):
         finish(p, 'fall', None, None)
     return done
 
 
 def returning(paths):
     return [p for p in paths if p.end[0] == 'return']
+
+
+def _direct_accumulation(rep, m, fi, p, v, kp, sf):
+    """F1 for a path of calc_file_signature that does the accumulation itself: `for record in records: accumulate_kmers(A, kspec,
+    record.seq)` inside the parse context, result A.signature().  Same semantic conditions as the delegated form: one pass over
+    the records of this file, every record searched on its own, nothing filtered or skipped, one accumulator (the caller's when
+    given, else one fresh default accumulator) that receives every record and whose signature is the result."""
+    QA, QD = 'gambit.sigs.calc.accumulate_kmers', 'gambit.sigs.calc.default_accumulator'
+    site = fi.site(p.end[1])
+    if not isinstance(v.func.value, ast.Name):
+        rep.add('F1', site, 'the file is searched with the given parameters and the optional caller accumulator', False, expected='the signature() of the accumulator that received the records',
+                found=u(v), stmt='calc_signature operands')
+        return
+    acc = v.func.value.id                                  # the accumulator as a value: parameter or symbol
+    if acc.startswith('?'):
+        inloop = [e.stmt for e in p.events if e.kind == 'loop' and any(isinstance(n, ast.Name) and isinstance(n.ctx, ast.Store) and n.id == acc[1:] for n in ast.walk(e.stmt))]
+        rep.require(inloop, f'calc_file_signature: cannot follow the accumulator whose signature() is returned ({u(v)})')
+        rep.add('F1', fi.site(inloop[0]), 'the file is searched with the given parameters and the optional caller accumulator', False, expected='one accumulator for all records of the file',
+                found=f'{acc[1:]} is rebound inside the loop', stmt='calc_signature operands')
+        return
+    recs, w = None, None
+    for d in [e for e in p.events if e.kind == 'def' and isinstance(e.stmt, ast.With)]:
+        if u(d.expr) == f'__enter__({sf}.parse())':
+            recs, w = d.sym, d.stmt
+    loops = [e for e in p.events if e.kind == 'loop']
+    feeding = [e for e in loops if isinstance(e.stmt, ast.For) and recs is not None and u(e.expr) == recs]
+    other = [e for e in loops if e not in feeding]
+    rep.require(not other, f'calc_file_signature: a loop other than the pass over the records: {u(other[0].stmt)[:80] if other else ""}')
+    rep.add('F1', fi.site(w if w is not None else p.end[1]), 'records come from the lazy parser of this file, and the search consumes them inside the context that closes the stream',
+            recs is not None and len(feeding) == 1 and any(w is x for x in feeding[0].withs), expected=f'with {sf}.parse() as records: for record in records: ...',
+            found=[u(e.stmt).split('\n')[0] for e in loops] or 'no loop over the records', stmt='parse context')
+    if len(feeding) != 1:
+        return
+    lp = feeding[0]
+    loop = lp.stmt
+    rep.require(isinstance(loop.target, ast.Name), f'calc_file_signature: structured loop target {u(loop.target)}')
+    var = loop.target.id
+    okb, found = not loop.orelse, []
+    body = sym_paths(fi.node, block=loop.body, env=lp.env)
+    for b in body:
+        calls = [e for e in b.events if e.kind == 'call' and isinstance(e.expr, ast.Call) and m.resolve_call(fi, e.expr) == QA]
+        rest = [e for e in b.events if e not in calls and e.kind != 'def']
+        rep.require(not rest, f'calc_file_signature: the loop over the records does something outside the vocabulary: {u(rest[0].stmt)[:80] if rest else ""}')
+        # every record reaches the accumulator: no filter, no early exit, exactly one search per record
+        good = b.end[0] == 'fall' and not b.conds and len(calls) == 1
+        if good:
+            c = calls[0].expr
+            a0, a1, a2 = get_arg(c, 0, 'accumulator'), get_arg(c, 1, 'kmerspec'), get_arg(c, 2, 'seq')
+            rep.require(not (isinstance(a2, ast.Name) and a2.id in b.defs), f'calc_file_signature: the sequence handed to accumulate_kmers is computed by a construct outside the vocabulary: {u(b.defs.get(a2.id)) if isinstance(a2, ast.Name) else ""}')
+            rep.require(u(a2) == f'{var}.seq' or a2 is None or not any(isinstance(x, ast.Call) for x in ast.walk(a2)),
+                        f'calc_file_signature: the sequence handed to accumulate_kmers is transformed by a construct outside the vocabulary: {u(a2)}')
+            good = u(a0) == acc and u(a1) == kp and u(a2) == f'{var}.seq' and len(c.args) + len(c.keywords) == 3
+        okb = okb and good
+        found.append(f"{[u(e.expr) for e in calls]} {'under ' + str(sorted(b.atoms())) if b.conds else ''} -> {b.end[0]}")
+    rep.add('F1', fi.site(loop), 'each record is handed over as its own sequence: one element per record, nothing filtered or merged', okb and bool(body),
+            expected=f'for record in {recs}: accumulate_kmers({acc}, {kp}, record.seq)', found=found, stmt='per-record generator')
+    rep.add('F1', fi.site(loop), 'nothing else draws from the record stream (no record is consumed before the search sees it)', p.uses(recs) == 1,
+            expected='records read only by the loop that searches them', found={recs: p.uses(recs)}, stmt='single consumer')
+    # which accumulator: the caller's when given, otherwise one fresh default accumulator - the same object before, in and after the loop
+    at = p.atoms()
+    ap = 'accumulator'
+    if acc in p.defs:
+        d = p.defs[acc]
+        fresh = isinstance(d, ast.Call) and m.resolve_call(fi, d) == QD and [u(a) for a in d.args] == [f'{kp}.k'] and not d.keywords
+        rep.require(fresh or (isinstance(d, ast.Call) and isinstance(d.func, (ast.Name, ast.Attribute))), f'calc_file_signature: the accumulator is built by a construct outside the vocabulary: {u(d)[:80]}')
+        oka = fresh and not p.feasible_with(('isnot', 'None', ap)) and next(e for e in p.events if e.kind == 'def' and e.sym == acc) in p.events[:p.events.index(lp)]
+        want = f'default_accumulator({kp}.k) only when {ap} is None'
+    else:
+        oka = acc == ap and not p.feasible_with(('is', 'None', ap))
+        want = f'the caller\'s {ap} when it is not None'
+    touched = [u(e.stmt)[:60] for e in p.events if e is not lp and e.kind in ('call', 'store') and any(isinstance(x, ast.Name) and x.id == acc for y in e.exprs() for x in ast.walk(y))]
+    rep.require(not touched, f'calc_file_signature: the accumulator is also used outside the loop by a construct that is not interpreted: {touched}')
+    rep.add('F1', site, 'the file is searched with the given parameters and the optional caller accumulator', oka,
+            expected=f'{want}; filled only by the loop; result = its signature()', found=f'{acc} := {u(p.defs.get(acc)) if acc in p.defs else "parameter"} under {sorted(at)}' + (f'; also {touched}' if touched else ''),
+            stmt='calc_signature operands')
 
 
 def check_isolation(ctx):
@@ -384,17 +474,21 @@ def check_isolation(ctx):
     kp, sf = fi.params()[:2]
     QS = 'gambit.sigs.calc.calc_signature'
     rets = returning(sym_paths(fi.node))
-    hits = []
+    hits, direct = [], []
     for p in rets:
         v = p.resolve(p.end[2])
         if isinstance(v, ast.Call) and m.resolve_call(fi, v) == QS:
             # the search runs where the call is evaluated: at the return itself, or where the local holding its value was bound
             d = next((ev for ev in p.events if ev.kind == 'def' and isinstance(p.end[2], ast.Name) and ev.sym == p.end[2].id), None)
             hits.append((p, v, tuple(p.withs) if d is None else d.withs))
+        elif isinstance(v, ast.Call) and isinstance(v.func, ast.Attribute) and v.func.attr == 'signature' and not v.args and not v.keywords:
+            direct.append((p, v))         # the accumulation is written out here instead of being delegated to calc_signature
         else:
             post = [x.id for x in ast.walk(v) if isinstance(x, ast.Name) and isinstance(p.defs.get(x.id), ast.Call) and m.resolve_call(fi, p.defs[x.id]) == QS] if v is not None else []
             rep.require(not post, f'calc_file_signature: the result of calc_signature is post-processed before it is returned: {u(v)}')
-    rep.require(hits, 'calc_file_signature: no path returns the result of a calc_signature call')
+    rep.require(hits or direct, 'calc_file_signature: no path returns the result of a calc_signature call or the signature() of an accumulator filled here')
+    for p, v in direct:
+        _direct_accumulation(rep, m, fi, p, v, kp, sf)
     unknown_forms = []
     for p, c, withs in hits:
         g0 = c.args[1] if len(c.args) > 1 else get_kw(c, 'seqs')
@@ -424,8 +518,9 @@ def check_isolation(ctx):
                 found={x: p.uses(x) for x in ([recs] if recs else []) + ([g0.id] if isinstance(g0, ast.Name) else [])}, stmt='single consumer')
         rep.add('F1', fi.site(c), 'the file is searched with the given parameters and the optional caller accumulator', c.args and u(c.args[0]) == kp and u(get_kw(c, 'accumulator')) == 'accumulator', expected=f'calc_signature({kp}, ..., accumulator=accumulator)',
                 found=u(c)[:80], stmt='calc_signature operands')
-    bad = {id(p.end[1]) for p in rets} - {id(p.end[1]) for p, _, _ in hits}
-    rep.account_returns('F1', fi, [p.end[1] for p, _, _ in hits if id(p.end[1]) not in bad], 'file signature')
+    okret = {id(p.end[1]) for p, _, _ in hits} | {id(p.end[1]) for p, _ in direct}
+    bad = {id(p.end[1]) for p in rets} - okret
+    rep.account_returns('F1', fi, [p.end[1] for p in rets if id(p.end[1]) in okret and id(p.end[1]) not in bad], 'file signature')
     # no concatenation anywhere between the records and the search
     n = 0
     for q in ('gambit.sigs.calc.calc_file_signature', 'gambit.sigs.calc.calc_signature', 'gambit.sigs.calc.accumulate_kmers', 'gambit.kmers.find_kmers'):
@@ -465,7 +560,12 @@ def check_compression(ctx):
             fmt = get_arg(call, 1, 'format')
         else:
             continue
-        sites += 1
+        # a site inside a helper that is not part of the reference tree (duplicated stanzas extracted into one function) stands
+        # for every place in cli/ that calls the helper; a helper nobody calls opens no file
+        if fi.qualname in known_symbols():
+            sites += 1
+        else:
+            sites += sum(1 for g, c2 in m.iter_calls(kinds=('py',)) if g.module.name.startswith('gambit.cli.') and m.resolve_call(g, c2) == fi.qualname)
         rep.call_sites += 1
         rep.functions.add(fi.qualname)
         rep.add('F4', fi.site(call), 'genome files given on the command line are opened with content-based compression detection', comp not in (None, Ellipsis) and is_const(comp, 'auto') and is_const(fmt, 'fasta'),
@@ -818,6 +918,19 @@ _DISP_OLD = ("\tif compression == 'none':\n\t\treturn open(path, mode, **kwargs)
              "\telif compression == 'auto':\n\t\treturn _open_auto(path, mode, **kwargs)\n\n\telse:\n\t\traise ValueError(f'Unknown compression type {compression!r}') from None\n")
 _GUESS_OLD = "\tmagic = fobj.read(2)\n\n\tif magic == b'\\x1f\\x8b':\n\t\treturn 'gzip'\n\telse:\n\t\treturn 'none'\n"
 _T = "T = TypeVar('T')\n"
+_D = 'src/gambit/cli/dist.py'
+_HELPER = ("def _sigs_of(kspec, paths, meter, label, **kw):\n\tseqfiles = SequenceFile.from_paths(paths, 'fasta', %s)\n\tpconf = progress_config(meter, desc=label) if len(paths) > 1 else None\n"
+           "\treturn calc_file_signatures(kspec, seqfiles, progress=pconf, **kw)\n\n\n")
+_HELPER_CALLS = (
+    (_D, "\t\tquery_sigfiles = SequenceFile.from_paths(query_files, 'fasta', 'auto')\n\t\tquery_pconf = progress_config(prog, desc='Calculating query genome signatures') if len(query_files) > 1 else None\n"
+         "\t\tquery_sigs = calc_file_signatures(kspec, query_sigfiles, progress=query_pconf, max_workers=cores)\n",
+     "\t\tquery_sigs = _sigs_of(kspec, query_files, prog, 'Calculating query genome signatures', max_workers=cores)\n"),
+    (_D, "\t\t\tref_sigfiles = SequenceFile.from_paths(ref_files, 'fasta', 'auto')\n\t\t\tref_pconf = progress_config('click', desc='Calculating reference genome signatures') if len(ref_files) > 1 else None\n"
+         "\t\t\tref_sigs = calc_file_signatures(kspec, ref_sigfiles, progress=ref_pconf)\n",
+     "\t\t\tref_sigs = _sigs_of(kspec, ref_files, 'click', 'Calculating reference genome signatures')\n"),
+)
+_DIRECT = ("\twith seqfile.parse() as records:\n\t\tif accumulator is None:\n\t\t\taccumulator = default_accumulator(kspec.k)\n\n"
+           "\t\tfor record in records:\n\t\t\taccumulate_kmers(accumulator, kspec, record.seq)\n\n\t\treturn accumulator.signature()\n")
 _PARSE_OLD = "\t\t\trecords = SeqIO.parse(fobj, self.format)\n\t\t\treturn ClosingIterator(records, fobj)\n\n\t\texcept:\n"
 _FILE_OLD = "\twith seqfile.parse() as records:\n\t\treturn calc_signature(kspec, (record.seq for record in records), accumulator=accumulator)\n"
 VARIANTS = [
@@ -870,6 +983,23 @@ VARIANTS = [
     V('twin: inlined parser call with a hard-coded format', 'B', _SQ, _PARSE_OLD, "\t\t\treturn ClosingIterator(SeqIO.parse(fobj, 'fasta'), fobj)\n\n\t\texcept BaseException:\n", 'F5'),
     V('twin: iterator does not wrap the parsed records', 'B', _SQ, _PARSE_OLD, "\t\t\trecords = SeqIO.parse(fobj, self.format)\n\t\t\treturn ClosingIterator(iter(list(records)[1:]), fobj)\n\n\t\texcept BaseException:\n", 'F5'),
     V('twin: parser set up outside the protected block (stream leaks on failure)', 'B', _SQ, "\t\ttry:\n\t\t\trecords = SeqIO.parse(fobj, self.format)\n", "\t\trecords = SeqIO.parse(fobj, self.format)\n\t\ttry:\n", 'F5'),
+    # duplicated stanzas extracted into a helper (the construction site moves into a function that is called twice)
+    V('E: the two file-opening stanzas of dist_cmd extracted into one helper', 'E', _D, "def fmt_kspec(kspec):", _HELPER % "'auto'" + "def fmt_kspec(kspec):", also=_HELPER_CALLS),
+    V('twin: extracted helper opens the files with extension-based compression', 'B', _D, "def fmt_kspec(kspec):", _HELPER % "None" + "def fmt_kspec(kspec):", 'F4', also=_HELPER_CALLS),
+    V('twin: extracted helper opens the files as uncompressed', 'B', _D, "def fmt_kspec(kspec):", _HELPER % "'none'" + "def fmt_kspec(kspec):", 'F4', also=_HELPER_CALLS),
+    # the delegated search written out in place: a loop that accumulates instead of a generator handed to calc_signature
+    V('E: records accumulated by a loop in calc_file_signature itself', 'E', _S, _FILE_OLD, _DIRECT),
+    V('E: direct accumulation with the accumulator chosen by a conditional expression into another local', 'E', _S, _FILE_OLD,
+      _DIRECT.replace("\t\tif accumulator is None:\n\t\t\taccumulator = default_accumulator(kspec.k)\n", "\t\tacc = default_accumulator(kspec.k) if accumulator is None else accumulator\n").replace("accumulate_kmers(accumulator,", "accumulate_kmers(acc,").replace("accumulator.signature()", "acc.signature()")),
+    V('twin: direct loop with a fresh accumulator per record', 'B', _S, _FILE_OLD,
+      "\twith seqfile.parse() as records:\n\t\tfor record in records:\n\t\t\tacc = default_accumulator(kspec.k) if accumulator is None else accumulator\n\t\t\taccumulate_kmers(acc, kspec, record.seq)\n\n\t\treturn acc.signature()\n", 'F1'),
+    V('twin: direct loop that skips short records', 'B', _S, _FILE_OLD, _DIRECT.replace("\t\t\taccumulate_kmers(", "\t\t\tif len(record.seq) < 1000:\n\t\t\t\tcontinue\n\t\t\taccumulate_kmers("), 'F1'),
+    V('twin: direct loop that stops after the first record', 'B', _S, _FILE_OLD, _DIRECT.replace("record.seq)\n", "record.seq)\n\t\t\tbreak\n"), 'F1'),
+    V('twin: direct loop ignores the accumulator given by the caller', 'B', _S, _FILE_OLD, _DIRECT.replace("\t\tif accumulator is None:\n\t\t\taccumulator =", "\t\taccumulator ="), 'F1'),
+    V('twin: direct loop searches into one accumulator but returns another', 'B', _S, _FILE_OLD, _DIRECT.replace("return accumulator.signature()", "return default_accumulator(kspec.k).signature()"), 'F1'),
+    V('twin: direct loop runs after the parse context closed the stream', 'B', _S, _FILE_OLD,
+      "\twith seqfile.parse() as records:\n\t\tif accumulator is None:\n\t\t\taccumulator = default_accumulator(kspec.k)\n\n\tfor record in records:\n\t\taccumulate_kmers(accumulator, kspec, record.seq)\n\n\treturn accumulator.signature()\n", 'F1'),
+    V('twin: direct loop draws a record before the loop', 'B', _S, _FILE_OLD, _DIRECT.replace("\t\tfor record in records:", "\t\tnext(records, None)\n\t\tfor record in records:"), 'F1'),
     # named generator, result bound to a local inside the with and returned after it
     V('E: named record generator, signature returned after the with block', 'E', _S, _FILE_OLD,
       "\twith seqfile.parse() as records:\n\t\tseqs = (record.seq for record in records)\n\t\tsig = calc_signature(kspec, seqs, accumulator=accumulator)\n\n\treturn sig\n"),
